@@ -198,11 +198,6 @@ LEGACY_NAMES = [
     ('AVTP_CRF_FIELD_SEQ_NUM', 'crf', 'sequence_num'),
     ('AVTP_CRF_FIELD_BASE_FREQ', 'crf', 'base_frequency'),
     ('AVTP_CRF_FIELD_CRF_DATA_LEN', 'crf', 'crf_data_length'),
-    ('AVTP_CVF_FIELD_SEQ_NUM', 'cvf', 'sequence_num'),
-    ('AVTP_CVF_FIELD_TIMESTAMP', 'cvf', 'avtp_timestamp'),
-    ('AVTP_CVF_FIELD_STREAM_DATA_LEN', 'cvf', 'stream_data_length'),
-    ('AVTP_CVF_FIELD_H264_PTV', 'cvf', 'ptv'),
-    ('AVTP_CVF_FIELD_H264_TIMESTAMP', 'h264', 'h264_timestamp'),
     ('AVTP_RVF_FIELD_SEQ_NUM', 'rvf', 'sequence_num'),
     ('AVTP_RVF_FIELD_TIMESTAMP', 'rvf', 'avtp_timestamp'),
     ('AVTP_RVF_FIELD_STREAM_DATA_LEN', 'rvf', 'stream_data_length'),
@@ -293,8 +288,10 @@ def hygiene():
         field(fmt, name)
     # acf-vss.md example vectors
     assert vss_ref_path_interop(b"Vehicle.Speed")[:2] == bytes([0, 13])
-    assert vss_ref_value(0x8B, [b"ab", b"", b"xyz"]) == bytes(
-        [0, 11, 0, 2]) + b"ab" + bytes([0, 0, 0, 3]) + b"xyz"
+    assert vss_ref_value(0x82, [0, 1, 2, 3, 4, 5]) == bytes.fromhex(
+        '000C000000010002000300040005')
+    assert vss_ref_value(0x8B, ["VSS".encode(), "\u2764\ufe0f".encode(), b"IEEE1722"]) == \
+        bytes.fromhex('0017' '0003565353' '0006E29DA4EFB88F' '00084945454531373232')
     return True
 
 
